@@ -379,6 +379,9 @@ func (r *Runner) Recycle() error {
 	return nil
 }
 
+// Project returns (creating on first use) the project with the given snapshot settings.
+func (r *Runner) Project(th, iv int64) (*types.Project, error) { return r.project(th, iv) }
+
 func (r *Runner) project(th, iv int64) (*types.Project, error) {
 	k := [2]int64{th, iv}
 	if p, ok := r.projects[k]; ok {
